@@ -82,8 +82,8 @@ func (b *ClassifierBackend) ClassifyLicenses(numTasks int, filenames []string, h
 	var wg sync.WaitGroup
 	analyze := func(filename string) {
 		defer func() {
-			wg.Done()
 			task <- true
+			wg.Done()
 		}()
 		if err := b.classifyLicense(filename, headers); err != nil {
 			errs <- err
